@@ -105,6 +105,8 @@ pub enum SFault {
     ForgedNoQuotientCap(usize, usize, u64),
     /// strategy: quotient cap of identically-zero polynomials, opening set without quotient openings
     ForgedNoQuotientOpenings(usize, usize, u64),
+    /// strategy: transcript-order attack - the forger draws zeta before committing to (and absorbing) the quotient
+    ForgedZetaBeforeQuotient(usize, usize, u64),
     /// (row, col, new value)
     TraceCell(usize, usize, u64),
     /// prover proves with this public input changed: (index, new value)
@@ -140,6 +142,7 @@ fn viol(rep: &mut Report, case: &Case, f: Option<&SFault>, oracle: &str, detail:
         Some(SFault::ProverPi(..)) => "prover_pi".to_string(),
         Some(SFault::ForgedNoQuotientCap(..)) => "forged_missing_quotient_cap".to_string(),
         Some(SFault::ForgedNoQuotientOpenings(..)) => "forged_missing_quotient_openings".to_string(),
+        Some(SFault::ForgedZetaBeforeQuotient(..)) => "forged_zeta_before_quotient".to_string(),
         Some(SFault::Message(m)) => format!("message.{}.{}", m.kind(), component(m.path())),
         None => "honest".to_string(),
     };
@@ -241,6 +244,7 @@ fn exec_s<C: GenericConfig<D, F = F>, const COLS: usize, const PIS: usize>(case:
             let (row, col) = (r.usize(n), r.usize(COLS));
             plan_f.push(SFault::ForgedNoQuotientCap(row, col, (inst.rows[row][col] + 1) % P));
             plan_f.push(SFault::ForgedNoQuotientOpenings(row, col, (inst.rows[row][col] + 1) % P));
+            plan_f.push(SFault::ForgedZetaBeforeQuotient(row, col, (inst.rows[row][col] + 1) % P));
         }
         // a trace whose columns are all constant gives a challenge-independent proof (all openings fit any
         // zeta and any query set): the R3 argument does not apply, a cap entry no new query lands on is legitimately unbound
@@ -282,6 +286,26 @@ fn exec_s<C: GenericConfig<D, F = F>, const COLS: usize, const PIS: usize>(case:
                     rep.probe("c09.unconstrained_cell_changed_and_accepted");
                 }
             }
+            SFault::ForgedZetaBeforeQuotient(row, col, nv) => {
+                let mut rows = inst.rows.clone();
+                rows[*row][*col] = *nv;
+                let violated = def.check(&rows, &inst.pis);
+                if violated.is_none() {
+                    rep.case(sig, false);
+                    continue;
+                }
+                rep.fault("strategy.forged_zeta_before_quotient");
+                rep.case(sig, true);
+                case.sched.arm();
+                match forge_without_quotient::<C, COLS, PIS>(def, &cfg, &rows, &inst.pis, 2) {
+                    Ok(p) => {
+                        if stark_verify::<C, COLS, PIS>(def, &cfg, &p).is_ok() {
+                            viol(rep, case, Some(f), "accepted_forged_proof_with_quotient_chosen_after_zeta", format!("violating trace (row {row} col {col}, constraint {:?}); the forger drew zeta before absorbing the quotient cap", violated));
+                        }
+                    }
+                    Err(_) => rep.probe("c09.forger_not_applicable"),
+                }
+            }
             SFault::ForgedNoQuotientOpenings(row, col, nv) => {
                 let mut rows = inst.rows.clone();
                 rows[*row][*col] = *nv;
@@ -293,7 +317,7 @@ fn exec_s<C: GenericConfig<D, F = F>, const COLS: usize, const PIS: usize>(case:
                 rep.fault("strategy.forged_missing_quotient_openings");
                 rep.case(sig, true);
                 case.sched.arm();
-                match forge_without_quotient::<C, COLS, PIS>(def, &cfg, &rows, &inst.pis, true) {
+                match forge_without_quotient::<C, COLS, PIS>(def, &cfg, &rows, &inst.pis, 1) {
                     Ok(p) => {
                         if stark_verify::<C, COLS, PIS>(def, &cfg, &p).is_ok() {
                             viol(rep, case, Some(f), "accepted_forged_proof_without_quotient_openings", format!("violating trace (row {row} col {col}, constraint {:?}); the opening set carries no quotient openings", violated));
@@ -313,7 +337,7 @@ fn exec_s<C: GenericConfig<D, F = F>, const COLS: usize, const PIS: usize>(case:
                 rep.fault("strategy.forged_missing_quotient_cap");
                 rep.case(sig, true);
                 case.sched.arm();
-                match forge_without_quotient::<C, COLS, PIS>(def, &cfg, &rows, &inst.pis, false) {
+                match forge_without_quotient::<C, COLS, PIS>(def, &cfg, &rows, &inst.pis, 0) {
                     Ok(p) => {
                         if stark_verify::<C, COLS, PIS>(def, &cfg, &p).is_ok() {
                             viol(rep, case, Some(f), "accepted_forged_proof_without_quotient_cap", format!("violating trace (row {row} col {col}, constraint {:?}); the proof carries no quotient cap", violated));
@@ -434,7 +458,8 @@ pub fn shrink(case: &Value) -> Vec<Value> {
 /// are never bound to the transcript. A sound verifier must reject such a proof (definitions with
 /// a quotient must carry a quotient cap).
 ///
-/// With `zero_quotient_cap` the forger instead commits to identically-zero quotient polynomials (the
+/// Modes: 0 as above; 2 = transcript-order attack (zeta drawn first, the quotient committed and absorbed afterwards, cap sent).
+/// With mode 1 the forger instead commits to identically-zero quotient polynomials (the
 /// cap is sent and observed) and sends an opening set *without* quotient openings, so that a verifier
 /// that does not insist on them has nothing to compare the vanishing polynomial with.
 pub fn forge_without_quotient<C: GenericConfig<D, F = F>, const COLS: usize, const PIS: usize>(
@@ -442,7 +467,7 @@ pub fn forge_without_quotient<C: GenericConfig<D, F = F>, const COLS: usize, con
     cfg: &StarkConfig,
     rows: &[Vec<u64>],
     pis: &[u64],
-    zero_quotient_cap: bool,
+    mode: u8,
 ) -> Result<StarkProofWithPublicInputs<F, C, D>, String> {
     use core::cmp::{max, min};
     use plonky2::field::extension::FieldExtension;
@@ -500,7 +525,7 @@ pub fn forge_without_quotient<C: GenericConfig<D, F = F>, const COLS: usize, con
         let (bound, _) = eval_at(zeta_prime, &alphas_prime, &dummy[..COLS], &dummy[COLS..2 * COLS]);
         challenger.observe_extension_elements::<D>(&bound);
         let alphas = challenger.get_n_challenges(cfg.num_challenges);
-        if zero_quotient_cap {
+        if mode == 1 {
             let n_polys = stark.quotient_degree_factor() * cfg.num_challenges;
             let zero = PolynomialBatch::<F, C, D>::from_coeffs(vec![PolynomialCoeffs::new(vec![F::ZERO; degree]); n_polys], rate_bits, false, cap_height, &mut timing, None);
             challenger.observe_cap(&zero.merkle_tree.cap);
@@ -534,13 +559,18 @@ pub fn forge_without_quotient<C: GenericConfig<D, F = F>, const COLS: usize, con
             }
         }
         let quotient_commitment = PolynomialBatch::<F, C, D>::from_coeffs(polys, rate_bits, false, cap_height, &mut timing, None);
+        if mode == 2 {
+            // transcript-order attack: the quotient is committed and absorbed only now, after zeta
+            challenger.observe_cap(&quotient_commitment.merkle_tree.cap);
+        }
         let openings = StarkOpeningSet::<F, D>::new::<C>(zeta, g, &trace_commitment, None, Some(&quotient_commitment), 0, false, &[]);
         // same order as the library's to_fri_openings: zeta batch (local, quotient), then the next-row batch
         challenger.observe_extension_elements::<D>(&openings.local_values);
         challenger.observe_extension_elements::<D>(openings.quotient_polys.as_ref().unwrap());
         challenger.observe_extension_elements::<D>(&openings.next_values);
         let opening_proof = PolynomialBatch::<F, C, D>::prove_openings(&stark.fri_instance(zeta, g, 0, vec![], cfg), &[&trace_commitment, &quotient_commitment], &mut challenger, &fri_params, None, None, &mut timing);
-        StarkProofWithPublicInputs { proof: StarkProof { trace_cap, auxiliary_polys_cap: None, quotient_polys_cap: None, openings, opening_proof }, public_inputs }
+        let quotient_polys_cap = if mode == 2 { Some(quotient_commitment.merkle_tree.cap.clone()) } else { None };
+        StarkProofWithPublicInputs { proof: StarkProof { trace_cap, auxiliary_polys_cap: None, quotient_polys_cap, openings, opening_proof }, public_inputs }
     })
 }
 
